@@ -36,6 +36,8 @@ func main() {
 		os.Exit(cmdReplay(os.Args[2:]))
 	case "optgen":
 		os.Exit(cmdOptgen(os.Args[2:]))
+	case "optdef":
+		os.Exit(cmdOptdef(os.Args[2:]))
 	case "prelude":
 		fmt.Print("(set-logic ALL)\n" + Prelude() + "(check-sat)\n")
 	default:
